@@ -8,7 +8,7 @@ PROP = dict(
     trace=dict(module="BlobStoreTrace", cfg="BlobStoreTrace.cfg"),
     nontrivial=lambda recs: evictions(recs) >= 1 and has(recs, "MarkComplete", 2),
     rule="seeded random histories (40-80 calls over 4 keys, capacities {1,3,4,8}, all scopes, movable and non-movable "
-         "metadata, Clean, sharded/unsharded) on a real disk.Store in a temp dir; every call logged with reply class and "
+         "metadata, Clean, sharded/unsharded, one call in twelve a Create of a name the file system refuses - BlobStore.tla CreateBad) on a real disk.Store in a temp dir; every call logged with reply class and "
          "post-call eviction order / reserved bytes / live keys; non-trivial = at least one eviction by admission and two completions",
     assumptions=["eviction order and reserved bytes are read through an export-only overlay shim (harness/overlay/lib/store/disk)"],
 )
